@@ -34,6 +34,12 @@ def one(job):
                 line = next((l for l in p.stdout.splitlines() if l.startswith(("VIOLATION", "INCONCLUSIVE"))), "")
                 rec["runs"].append({"seed": seed, "verdict": {0: "MISSED", 1: "CAUGHT", 2: "INCONCLUSIVE"}.get(p.returncode, f"rc{p.returncode}"),
                                     "wall_s": round(time.time() - t0, 1), "first": line[:200]})
+            if any(r["verdict"] != "CAUGHT" for r in rec["runs"]):
+                # does the change still break anything on the current HEAD?  (a later fix: commit may have made it inert)
+                p = subprocess.run([PY, "-B", os.path.join(d, "demo.py")], cwd=root, capture_output=True, text=True, timeout=600,
+                                   env=dict(os.environ, PYTHONPATH=root, PYTHONDONTWRITEBYTECODE="1"))
+                rec["demo_patched_rc"] = p.returncode
+                rec["superseded"] = p.returncode == 0
     except Exception as e:  # noqa
         rec["error"] = repr(e)[:200]
     finally:
@@ -59,6 +65,9 @@ def main():
         for name, rec in ex.map(one, [(n, a.seeds) for n in names]):
             vs = [r["verdict"] for r in rec["runs"]]
             ok = rec.get("patch_applies") and vs and all(v == "CAUGHT" for v in vs)
+            if not ok and rec.get("superseded"):
+                print(f"{name:<12} SUPERSEDED: its own demonstration passes with the patch on the current HEAD (a later fix made it inert) {vs}", flush=True)
+                continue
             bad += not ok
             print(f"{name:<12} {'ok ' if ok else 'BAD'} applies={rec.get('patch_applies')} {vs} {rec.get('error', '')}", flush=True)
     print(f"{len(names)} seeded changes, {bad} not caught")
